@@ -343,6 +343,7 @@ func collectFaults(sum *Summary, ep *Episode) {
 			sum.Faults["dequeue_refused"] += q.ad.FiredDeq
 			sum.Faults["ack_refused"] += q.ad.FiredAck
 			sum.Faults["ack_stalled"] += q.ad.FiredStall
+			sum.Faults["ack_applied_answer_lost"] += q.ad.FiredAckLost
 			sum.Faults["bad_entries_injected"] += q.ad.injected
 			sum.Faults["notification_duplicated"] += q.ad.Dups
 			sum.Faults["notification_delayed"] += q.ad.Delays
